@@ -3,7 +3,7 @@
    udp_forwarder.rs) for every operation history, with the environment's answers (socket can be
    opened, send succeeds, a reply or a socket error arrives, the timer ticks) as operations. *)
 From Coq Require Import List NArith Bool.
-From TT Require Import Lib.BytesL Generated.UdpFacts Model.UdpFlows Proofs.UdpFlowsProofs.
+From TT Require Import Lib.BytesL Generated.UdpFacts Generated.SocksFacts Model.UdpFlows Proofs.UdpFlowsProofs.
 Import ListNotations.
 Open Scope N_scope.
 
@@ -112,7 +112,7 @@ Theorem code_facts :
   UDP_TICK_CLOSES_REVERSED_KEY = true /\ UDP_TICK_EXPIRES_IDLE_LONGER_THAN_TIMEOUT = true
   /\ UDP_FAILED_OPEN_FORGETS_FLOW = true /\ UDP_DONE_AND_CLOSE_AS_MODELLED = true
   /\ UDP_SEND_ERROR_DROPS_DATAGRAM = true /\ UDP_FORWARDER_TABLE_AS_MODELLED = true
-  /\ UDP_READ_ERRORS_REMOVE_THE_FLOW = true.
+  /\ UDP_READ_ERRORS_REMOVE_THE_FLOW = true /\ SOCKS_UDP_READ_DOES_NOT_WAIT = true.
 Proof. repeat split; exact eq_refl. Qed.
 Print Assumptions code_facts.
 
